@@ -102,7 +102,7 @@ CLAIMED = {
             'abstract interpretation over finite character-class / error-code domains, linear constraints, call-shape rules', '§5 C16'),
     'C17': ('other',
             'Validator plumbing decided structurally per instantiation (fold order over all validators, message forwarding, grouping/append, '
-            'grouping/append and cap decided by executing AddValidationError over a map model, final throw iff non-empty map, entry-point protocol, wrapper loaders report 'not loaded' whenever they leave the wrapper empty) and the built-in validators decided by abstract interpretation '
+            'grouping/append and cap decided by executing AddValidationError over a map model, final throw iff non-empty map, entry-point protocol, wrapper loaders report not-loaded whenever they leave the wrapper empty) and the built-in validators decided by abstract interpretation '
             'over the finite orderings of value/size vs bounds x loaded. Path strings and the Email/Phone grammars are not decided.',
             'AST rules per instantiation + decision tables over finite orderings', '§5 C17'),
     'C18': ('other',
